@@ -1695,6 +1695,8 @@ BTree_maxminKey(BTree *self, PyObject *args, int min)
     {
         bucket = BTree_lastBucket(self);
         PER_UNUSE(self);
+        if (bucket == NULL)
+            return NULL;    /* a node on the way down could not be loaded */
         UNLESS (PER_USE(bucket))
         {
             Py_DECREF(bucket);
